@@ -125,6 +125,9 @@ def run_case(ctx, i, root, reqs, metas):
         cands = [k for k in pfile if k not in ('tasks', 'uses')]
         if cands:
             spec['context'] = {rng.choice(cands): gen.gen_value(rng, 1, 3, gen.SAFE, gen.SAFE), 'unused_ctx': 1}
+    if rng.random() < 0.3:
+        # the config is given an explicit name (`Config(dir, file, name=…)`): in name mode that name, not the file's, is the storage key
+        spec['config_name'] = rng.choice(['experiment_1', 'exp.v2', 'main'])
     verbose = rng.random() < 0.5
     base = root / f'c{i}'
     b = pl.materialize(spec, base / 'mod', modname=spec['module'])
@@ -205,7 +208,7 @@ def run_case(ctx, i, root, reqs, metas):
             impl_runs.append({'ok': True, 'src': tree_json(s1[0], s1[1]), 'tgt': tree_json(t1[0], t1[1])})
         n_results = len(s0[0])
         ctx.case(case, nontrivial=n_results > 0)
-        ctx.count(f'scenario:{scenario}'); ctx.count('context' if spec.get('context') else 'no-context'); ctx.count(f'results:{min(n_results, 3)}{"+" if n_results >= 3 else ""}')
+        ctx.count(f'scenario:{scenario}'); ctx.count('context' if spec.get('context') else 'no-context'); ctx.count('named-config' if spec.get('config_name') else 'file-named-config'); ctx.count(f'results:{min(n_results, 3)}{"+" if n_results >= 3 else ""}')
         for t in tasks:
             if t['name'] in computed and t['persist']:
                 ctx.count('kind:' + t['kind'])
